@@ -96,7 +96,7 @@ pub fn case_lookup<const COLS: usize>(seed: u64, case: u64, quick: bool) -> Acc 
         return acc;
     }
     // ---- negatives ---------------------------------------------------------------------------
-    let knobs = StarkProverKnobs { skip_constraint_check: true, lenient_truncation: true, aux_edits: vec![], aux_trace: None };
+    let knobs = StarkProverKnobs { skip_constraint_check: true, lenient_truncation: true, ..Default::default() };
     set_knobs(knobs.clone());
     let reps = if quick { 1 } else { 2 };
     for _ in 0..reps {
